@@ -153,8 +153,11 @@ func VerifRunReplicator(ctx context.Context, s *Server, what string) error {
 // VerifServeReads prepares the shell for running real read endpoints: the token resolver of a
 // server with ACLs disabled, and a shutdown channel that releases parked blocking queries.
 func VerifServeReads(s *Server) error {
+	if s.shutdownCh == nil {
+		s.shutdownCh = make(chan struct{})
+	}
 	if s.ACLResolver != nil {
-		return nil
+		return nil // (a world that enabled ACLs on the shell: its resolver stays)
 	}
 	settings := ACLResolverSettings{ACLsEnabled: false, Datacenter: s.config.Datacenter, NodeName: s.config.NodeName,
 		ACLPolicyTTL: 30 * time.Second, ACLTokenTTL: 30 * time.Second, ACLRoleTTL: 30 * time.Second, ACLDownPolicy: "extend-cache", ACLDefaultPolicy: "allow"}
